@@ -276,7 +276,40 @@ func runC16(c *Ctx, r *Report) {
 				fmt.Sprintf("the first %s position entry%+d, i.e. token start + %d: the opening delimiter is 2 bytes long, so the body must be scanned from token start + 2 (starting later misses a terminator at the very beginning, as in /**/; starting earlier would take the `*` of the opening for one)", what, firstRead, firstRead+1))
 		}
 	}
-	r.Floor("C16.R1", 13)
+	// end of input inside a string literal is recognised on the byte that was read, never on a decoded escape
+	{
+		rs := c.SSAFn(c.Fn("lexer", "Lexer.readString"))
+		readChar := c.Fn("lexer", "Lexer.readChar")
+		nEOF := 0
+		eachInstr(rs, func(in ssa.Instruction) {
+			ret, ok := in.(*ssa.Return)
+			if !ok || len(ret.Results) != 2 {
+				return
+			}
+			k, ok := retVal(ret, 1).(*ssa.Const)
+			if !ok || k.Value == nil || k.Value.ExactString() != "false" {
+				return // not the "unterminated" return
+			}
+			// the byte tests selecting this return
+			for _, cc := range controlling(ret.Block()) {
+				bin, ok := cc.Cond.(*ssa.BinOp)
+				if !ok || bin.Op != token.EQL || cc.Edge != 0 {
+					continue
+				}
+				if kk, isK := constInt(bin.Y); !isK || kk != 0 {
+					continue
+				}
+				nEOF++
+				call, isCall := bin.X.(*ssa.Call)
+				r.Check(isCall && isCallTo(call, readChar), "C16.R1", ssaFuncName(rs), "the end-of-input test of a string literal looks at the byte just read", c.Pos(bin.Pos()),
+					"the `== 0` test that ends the literal as unterminated is applied to "+bin.X.String()+", not to the result of readChar(): a decoded escape (\\x00) is then taken for the end of the input, the string token stops in the middle and the end marker is delivered early")
+			}
+		})
+		if nEOF == 0 {
+			r.Undecided("C16.R1: no end-of-input test found in readString")
+		}
+	}
+	r.Floor("C16.R1", 14)
 
 	// ---- R2 ----
 	ctc := c.Fn("token", "ConstantTokenChar")
